@@ -19,7 +19,7 @@ RULE = ('metamorphic: the same server byte stream S is delivered under a referen
         'incl. the handshake/body boundary) of each curated short stream; every single cut and every pair '
         'of cuts of a full handshake reply followed by frames. Plus one-byte-per-read and seeded random '
         'cut sets (incl. 64 KiB multiples) for long generated streams (valid, invalid, compressed, '
-        'rejected and oversized handshakes). A class is (stream, cut-set class).')
+        'rejected and oversized handshakes). A class is a distinct (stream, cut set) pair whose run was compared.')
 ASSUMPTIONS = [
     'the simulated socket returns at most the bytes up to the next cut per recv_into, never more',
     'Poll events are ignored (their number depends on how many loop cycles a segmentation causes)',
@@ -228,6 +228,7 @@ def compare(acc, case, st, cuts, label):
     ref = reference(st)
     obs, run, w = observe(st, cuts)
     acc.count2('oracle', 'variant_runs_compared')
+    acc.executed()
     acc.count2('oracle', 'events_compared', len(obs['events']))
     acc.count2('oracle', 'client_frames_compared', len(obs['frames']))
     if obs != ref:
@@ -249,10 +250,9 @@ def run_case(case, acc):
         ok = True
         for mask in range(case['lo'], case['hi']):
             cuts = [hl + b for b in range(len(st['body'])) if mask >> b & 1]
-            ok &= compare(acc, dict(kind='one', si=case['si']), st, cuts, 'mask=%#x' % mask)
+            if compare(acc, dict(kind='one', si=case['si']), st, cuts, 'mask=%#x' % mask):
+                acc.cls('exh/%s/%x' % (st['name'], mask))
             acc.count2('oracle', 'exhaustive_cutsets')
-        if ok:
-            acc.cls('exh/%s/%d-%d' % (st['name'], case['lo'], case['hi']))
         acc.exhaustive_done['all 2^n cut sets of every curated stream with n<=13'] = True
     elif k == 'one':
         st = catalogue()[case['si']]
@@ -268,12 +268,10 @@ def run_case(case, acc):
                 acc.count2('oracle', 'handshake_single_cuts')
         else:
             a = case['a']
-            ok = True
             for b in range(a + 1, npos):
-                ok &= compare(acc, case, st, [a, b], 'cuts %d,%d' % (a, b))
+                if compare(acc, case, st, [a, b], 'cuts %d,%d' % (a, b)):
+                    acc.cls('hs2/%d/%d' % (a, b))
                 acc.count2('oracle', 'handshake_cut_pairs')
-            if ok:
-                acc.cls('hs2/%d' % a)
         acc.exhaustive_done['every single cut and pair of cuts of handshake reply + 2 frames'] = True
     else:
         st = get_stream(case)
